@@ -102,6 +102,11 @@ func (u *udpHandler) Handle() error {
 			TLOG.Errorf("Close connection %s: %v", u.config.Address, err)
 			return err // TODO: check if necessary
 		}
+		if n < 4 {
+			// shorter than the 4-byte length header: not a tars packet
+			TLOG.Errorf("drop %d-byte datagram from %v", n, udpAddr)
+			continue
+		}
 		pkg := make([]byte, n)
 		copy(pkg, buffer[0:n])
 		u.handleUDPAddr(udpAddr, pkg)
